@@ -40,6 +40,23 @@ joint's own member last.  Every object must show the same logpdf, pdf, cdf and s
 (pdf integrates to one in 1-D), logd - logpdf constant in x, and for a reduced joint equal to the documented
 log-densities of the fixed variables.
 
+Facet ``scalar-like representation`` (how a parameter that is broadcast over the geometry is written): python scalar /
+numpy scalar / 0-d array / one-element 1-D array / one-element list / (1,1) array (float-typed; integer-typed in the
+integer-valued cells) for EVERY parameter of every family: fam cells - each parameter alone and all together x dim
+{1,2,3} x source of the dimension {geometry=dim, another parameter given as a full vector} x {passed directly, value a
+callable parameter is conditioned on, value a None parameter is conditioned on}; Gaussian (dims <= 5) - the scalar
+datum of every parameterisation (directly / scale the callable datum is conditioned on / value of the None datum) and
+the scalar mean (directly / value of the callable mean); MRFs - location and hyper-parameter (directly / value of the
+callable).  Oracle unchanged: the documented density with the parameter broadcast to dim; a raise, a dimension other
+than the geometry's, or - for the (1,1) array only - an answer that is not one number count as refusal.
+
+Facet ``process history`` (fam and MRF cells): the object under test and a sibling of the SAME family and dimension but
+other hidden structure (MRF: 1-D on N*N nodes <-> 2-D on N x N, other boundary condition, other order, other
+hyper-parameter, other location; fam: other parameter values, scalar-broadcast <-> per-component parameters, image /
+discrete <-> 1-D geometry) are built inside ONE cell, sibling first and target first; the earlier object is used before
+the later one is built; afterwards both must show the documented density of their own configuration.  State shared
+between objects of one process is thereby found inside every single cell, whatever else ran in the worker.
+
 Signatures name only those facets that discriminate failing from passing configurations inside a cell.
 The references are explicit textbook formulas written here (numpy / scipy.special only).
 """
@@ -61,7 +78,15 @@ RULE = ("cells = {gauss: target x parameterisation x dim x overall scale of the 
         "variable (+ copy of it), with 2 fixed variables {at once, a then b, b then a}, get_density member of the "
         "conditioned joint, member of the partially conditioned joint} crossed with the configurations (fam: all; "
         "Gaussian / MRF: the configurations with 0, 1, 2 conditioning variables), all routes on one live base "
-        "object, same observables + logd - logpdf = reference log-density of the fixed variables; each inner "
+        "object, same observables + logd - logpdf = reference log-density of the fixed variables; facet scalar-like "
+        "representation {python scalar, numpy scalar, 0-d array, 1-element array, 1-element list, (1,1) array} of every "
+        "broadcast parameter of every family (fam: each parameter alone / all together x dim {1,2,3} x dimension from "
+        "geometry= / from another vector parameter x {direct, value of a callable, value of a None parameter}; Gaussian: "
+        "scalar datum and scalar mean; MRF: location and hyper-parameter), same oracle (parameter broadcast to dim; "
+        "refusal accepted); facet process history (fam, MRF): target and a same-dimension sibling of other hidden "
+        "structure {MRF: physical dimension, bc, order, hyper-parameter, location; fam: parameter values, scalar vs "
+        "vector parameters, geometry kind} built in one cell in both orders, the first used before the second exists, "
+        "both compared with their own documented density afterwards; each inner "
         "configuration x origin is a state; a cell is non-trivial when at least one configuration was constructed "
         "and compared")
 BOUND = {
@@ -86,12 +111,29 @@ BOUND = {
              "vector mean) and (callable datum, callable mean) [integer cells: callable datum, vector mean] x all "
              "data shapes / paths / factor kinds x all points of the cell x {logpdf, logd, pdf, cdf (dim<=2)}; MRFs: "
              "5 routes for (location, hyper-parameter) in {(vector, float), (vector, callable), (callable, "
-             "callable)} x all bc / order / geometry x all points",
+             "callable)} x all bc / order / geometry x all points. Scalar-like facet: 6 representations; fam cells - every "
+             "parameter alone + all together x dims {1,2,3} x {geometry=dim, other parameter a vector (dim>1)} x {direct, "
+             "callable, None} (all-together: direct) at every parameter set (integer set: the 6 integer-typed "
+             "representations), 2 inside + 2 outside points x {logpdf, logd, logd(cond.), pdf, cdf}; Gaussian unscaled "
+             "and integer cells of dims <= 3 - scalar datum x 6 representations x {array, callable, None} x mean forms "
+             "{scalar, vector, same representation}, mean x 5 further representations + callable mean conditioned on "
+             "each of the 6 x directly passed data of every shape / path / factor; MRFs - location: 5 further "
+             "representations + callable conditioned on each of 6, crossed with hyper-parameter {float, callable}; "
+             "hyper-parameter: 4-5 further representations + callable conditioned on 5, crossed with location {vector, "
+             "callable}; both in the same representation. Process-history facet: MRF cells - per (bc, order): siblings "
+             "{1-D N*N <-> 2-D N x N (2-D cells; 1-D cells with square N), each other bc of the same order, each other "
+             "order (GMRF, bc zero), hyper-parameter x 2, location 0} x {sibling first, target first}, all points of the "
+             "cell; fam cells - dims {1,2,3,2x2} x {scalar-broadcast, per-component} x siblings {next value catalogue, "
+             "other form, Discrete / 1-D geometry} x both orders, 2 inside + 2 outside points",
     "thorough": "all 3 value catalogues; Gaussian dims {1,2,3,4,5,74,75,76,77} with the complete basis and 4 "
                 "generic points; scale facet at dims {1,2,3,4,5,75,76} with all 5 mean forms; integer facet at "
                 "dims {1,2,3,4,76} with all 6 mean forms (scalar/vector/list x float/int); MRFs 1-D N=2..10, "
                 "2-D N=2..4 and the integer 1-array hyper-parameter form for GMRF; origin facet: all 10 routes at "
-                "every parameter set of the fam cells, Gaussian origin routes at every dimension (integer cells: dims<=4); otherwise as quick",
+                "every parameter set of the fam cells, Gaussian origin routes at every dimension (integer cells: dims<=4); "
+                "scalar-like facet: Gaussian dims <= 5 (integer cells <= 4) and MRFs with the FULL product (datum / "
+                "location representation) x (mean / hyper-parameter representation) x all passing forms, MRFs also the "
+                "integer-typed representations of the integer-valued location and hyper-parameter; process-history "
+                "facet for every N of the tier; otherwise as quick",
 }
 ASSUMPTIONS = [
     "far-tail points of the iid families (centre +- 60/2000 scale, 2000 scale above / 2^-40 scale next to a finite bound, "
@@ -102,6 +144,16 @@ ASSUMPTIONS = [
     "only (not to the iid families / MRFs); representations other than float64, int64 and python int/float (e.g. "
     "float32, int32, bool) are not covered; integer-valued parameters are small integers (|v| <= 8)",
     "multi-dimensional normalisation is decided by the reference formula only; quadrature is used for dim 1",
+    "scalar-like facet: representations other than the 6 listed (e.g. float32 scalars, one-element tuples, 0-d / 1-element "
+    "arrays of other dtypes) are not covered; a raise, a distribution whose dim differs from the geometry's, and - for the "
+    "(1,1) array only - a logpdf that is not one number are accepted as refusal (a single wrong number never is); the "
+    "scalar-like configurations are examined on a reduced point alphabet (fam: 2 inside + 2 outside points, no far-tail "
+    "points, no quadrature); quick tier: at most one parameter of a Gaussian / MRF in a non-basic representation, or both "
+    "in the same one (thorough: full product)",
+    "process-history facet: histories of two objects (one sibling) per cell, same family only; the siblings differ from "
+    "the target in ONE hidden facet; objects are used through logpdf / logd / pdf before the other is built (no sampling, "
+    "no gradients: C03 / C10 subjects); Gaussian cells have no process-history facet (live-object histories: re-assignment "
+    "engine)",
     "origin facet: joint distributions of at most 3 densities (x and <= 2 fixed variables), priors of the fixed "
     "variables Gamma / Normal / Laplace (none of whose parameter names equals the variable's name), no likelihoods "
     "(posteriors are C05's subject); the routes other than direct are examined only where the directly constructed "
